@@ -794,6 +794,16 @@ fn vh_translate_main(src: &str, cfgpath: &str, out_parser: &str, out_tie: &str, 
         if let Ok(file) = syn::parse_file(&text) {
             for it in &file.items {
                 if let Item::Impl(im) = it {
+                    // `.into()` / `From::from` of the UIDPLUS parsers (bound by hand in the config: `into ...`)
+                    if let Some((_, tp, _)) = &im.trait_ {
+                        let t = tp.to_token_stream().to_string().replace(' ', "");
+                        if im.self_ty.to_token_stream().to_string().starts_with("UidSetMember") && t.starts_with("From<") {
+                            let mut i2 = im.clone();
+                            i2.attrs.clear();
+                            let key = if t.contains("RangeInclusive") { "types::UidSetMember::from_range" } else { "types::UidSetMember::from_u32" };
+                            extra.push((key.into(), fnv(&i2.to_token_stream().to_string())));
+                        }
+                    }
                     if im.trait_.is_none() && im.self_ty.to_token_stream().to_string().starts_with("Response") {
                         for ii in &im.items {
                             if let syn::ImplItem::Fn(m) = ii {
@@ -825,7 +835,7 @@ fn vh_translate_main(src: &str, cfgpath: &str, out_parser: &str, out_tie: &str, 
             }
         }
     }
-    for want in ["types::Response::from_bytes", "types::acls::AclRight::from_char"] {
+    for want in ["types::Response::from_bytes", "types::acls::AclRight::from_char", "types::UidSetMember::from_range", "types::UidSetMember::from_u32"] {
         let got = extra.iter().find(|(k, _)| k == want);
         let (status, fp) = match (got, cfg.opaque_fp.get(want)) {
             (Some((_, fp)), Some(rec)) if fp == rec => ("opaque-unchanged", fp.clone()),
